@@ -255,6 +255,14 @@ class ImgSetV(object):
         self.seq, self.fn = seq, fn        # fn(index term) -> scalar z3 term
 
 
+class MapViewV(object):
+    """items() / values() / keys() view of a symbolic map"""
+    __slots__ = ("m", "what")
+
+    def __init__(self, m, what):
+        self.m, self.what = m, what
+
+
 class EnumV(object):
     """enumerate(seq, start) over a sequence of symbolic length"""
     __slots__ = ("seq", "start")
